@@ -118,13 +118,30 @@ def run_crit(case, ctx):
         order = numpy.arange(n, dtype=numpy.intp) if okind == "identity" else rng.permutation(n).astype(numpy.intp)
         d = int(rng.randint(1, 4))
         X = numpy.ascontiguousarray(rng.randn(n, d) if tkind != "offset" else 2000 + rng.rand(n, d) * 12)
+        # rank-deficient designs with more rows than coefficients (a binary feature that is constant below a
+        # split on it, a duplicated column, a constant column): the least-squares residual is still well defined
+        xk = ["full-rank", "full-rank", "binary-column", "duplicated-column", "constant-column"][
+            (case["sub"] + len(tkind) + len(wkind) + len(okind)) % 5]
+        if tkind != "offset" and xk != "full-rank":
+            if xk == "binary-column":
+                X[:, 0] = (rng.rand(n) < 0.5).astype(float)
+                X[: n // 2, 0] = 1.0
+            elif xk == "duplicated-column" and d > 1:
+                X[:, -1] = X[:, 0]
+            elif xk == "constant-column":
+                X[:, -1] = 3.0
+            else:
+                xk = "full-rank"
+        else:
+            xk = "full-rank"
+        ctx.cls("design=" + xk)
         W = float(w.sum())
         ymax = float(numpy.abs(y).max())
         # slack relative to the magnitude of the targets (an absolute floor would hide everything on tiny ones)
         atol = 1e-9 * ((1 + ymax ** 2) if tkind not in ("tiny", "huge") else max(ymax ** 2, 1e-300)) * (
             100 if tkind == "offset" else 1)
         vtol = 1e-9 * (1.0 if tkind not in ("tiny", "huge") else max(ymax, 1e-300))
-        cfg = {"n": n, "target": tkind, "weights": wkind, "order": okind, "d": d}
+        cfg = {"n": n, "target": tkind, "weights": wkind, "order": okind, "d": d, "design": xk}
         crits = {"simple": SimpleRegressorCriterion(1, n), "fast": SimpleRegressorCriterionFast(1, n)}
         if wkind == "unit":
             crits["linear"] = LinearRegressorCriterion(1, X)
@@ -149,7 +166,12 @@ def run_crit(case, ctx):
                 s0 = int(rng.randint(0, n))
                 e0 = int(rng.randint(s0 + 1, n + 1))
                 if w_o[s0:e0].sum() > 0:
-                    cm._test_criterion_init(c, ys, w, W, order, s0, e0)
+                    # ... with another sample order and other weights (none of them zero): whatever the object
+                    # keeps per position must be rewritten by the init under test
+                    order2 = rng.permutation(n).astype(numpy.intp)
+                    w2 = rng.rand(n) + 0.5
+                    cm._test_criterion_init(c, ys, w2 if name != "linear" else numpy.ones(n),
+                                            float(w2.sum()) if name != "linear" else float(n), order2, s0, e0)
                     cm._test_criterion_update(c, int(rng.randint(s0, e0 + 1)))
                 try:
                     cm._test_criterion_init(c, ys, w, W, order, s, e)
@@ -268,7 +290,7 @@ def run_tree(case, ctx):
     Xfit, yfit = layouts.relayout(X if tdtype == "float64" else X.astype(tdtype), lay), layouts.relayout(y, lay)
     cfg["train_dtype"] = tdtype
     ctx.cls("train-dtype=" + tdtype)
-    m = layouts.build(PiecewiseTreeRegressor, params, via,
+    m = layouts.build(PiecewiseTreeRegressor, params, via, as_numpy_scalars=(case["sub"] // 7) % 3 == 0, decoys=
                       dict(criterion="simple" if crit == "mselin" else "mselin", max_depth=params["max_depth"] + 7,
                            min_samples_leaf=params["min_samples_leaf"] + 3, random_state=5))
     try:
